@@ -362,6 +362,12 @@ func (b Builder) Slice(x, low, high, max Expr) (ret Expr) {
 		telem := t.Elem()
 		switch te := telem.Underlying().(type) {
 		case *types.Array:
+			// a[i:j] on a pointer to array is (*a)[i:j]: slicing a nil pointer
+			// panics. Local arrays and globals are sliced through their address,
+			// which cannot be nil.
+			if x.impl.IsAAllocaInst().IsNil() && x.impl.IsAGlobalValue().IsNil() {
+				b.AssertNilDeref(x)
+			}
 			elem := prog.rawType(te.Elem())
 			ret.Type = prog.Slice(elem)
 			nEltSize = SizeOf(prog, elem)
